@@ -1080,7 +1080,7 @@ class SetGen:
                                                                  ["container", "b", [["uses", "%s_%d" % (stem, i - 1), None]]]]])
             u.body.append(["container", stem, [["uses", "%s_%d" % (stem, depth), None]]])
         if rnd.random() < 0.1:                       # deep nesting (far below any stack limit)
-            depth = rnd.choice([30, 100, 300, 1500 if self.big else 400])
+            depth = rnd.choice([30, 100, 300, 800 if self.big else 400])
             kw = rnd.choice(["container", "container", "list", "choice", "grouping", "case-chain"])
             self.dist["gadget:deep-%s:%d" % (kw, depth)] += 1
             node = leaf("bottom")
@@ -1600,7 +1600,7 @@ def gen_chunk(arg):
 def plan(tier):
     if tier == "quick":
         return [(40, 150, 110, 110)]            # (chunks, sets, mutations, noise texts) per chunk
-    return [(960, 150, 110, 110)]
+    return [(768, 150, 110, 110)]
 
 
 # ------------------------------------------------------------------ minimisation
@@ -1812,9 +1812,7 @@ def run(res, tier, seed, proof):
                         samples.append(dict(generator=gen, case=line[:600], observation=o[:300]))
                     continue
                 if cls == "fatal" and stack_depth_shape(line, o):
-                    res.known("parser.stack-depth", "%d nested braces: %s" % (max(max_brace_depth(t) for t in
-                              ([x for _, x in decode_case(line)["texts"]] if "texts" in decode_case(line)
-                               else [decode_case(line)["text"]])), o[:120]))
+                    res.known("parser.stack-depth", "a text with a million or more nested braces: %s" % o[:160])
                     outcomes["known-stack-depth"] += 1
                     continue
                 for piece in o.split(" ALSO "):
@@ -1830,7 +1828,7 @@ def run(res, tier, seed, proof):
                 work.append((tier, seed, k, ns, nm, nn))
                 k += 1
         import multiprocessing
-        batch = 16
+        batch = 64 if tier != "quick" else 20
         with multiprocessing.Pool(min(lib.NCPU, 16)) as pool:
             pending = None
             for b in range(0, len(work), batch):
